@@ -7,8 +7,8 @@
 // (the text carries no package name and no line number), so the definitions of Gen/Imp/PolyEval.lean are those of every package.
 //
 // Value vocabulary (Model/GoImp.lean, Model/GoImpSlice.lean): `int`, `int64` = Int (unbounded: overflow of Go's 64-bit int is NOT modelled);
-// `uint`, `uint64` = Int, a conversion `uint64(e)` / `uint(e)` is `u64 e = e mod 2^64` (uint is taken as 64 bits wide), the only operation on
-// them is `>>` (`shr64`); Go's `/` and `%` on int are the TRUNCATED ones (`Int.tdiv`, `Int.tmod`); `[]fr.Element` / `*fr.Vector` = List F BY VALUE;
+// `uint`, `uint64` = Int, a conversion `uint64(e)` / `uint(e)` is `toU64 e = e mod 2^64` (uint is taken as 64 bits wide), the only operation on
+// them is `>>` (`shrU64`); Go's `/` and `%` on int are the TRUNCATED ones (`Int.tdiv`, `Int.tmod`); `[]fr.Element` / `*fr.Vector` = List F BY VALUE;
 // `fr.Element` = F; `Basis`, `Layout` = Int (the constants are read from the const blocks, iota evaluated); `polynomial` / `Polynomial` = Lean
 // structures (the embedded `Form` is flattened, the embedded `*polynomial` is a field).
 // PARAMETERS of every generated def (pvParams): `fzero` (zero value of fr.Element), `fone` (SetOne), `fadd fsub fmul fdiv` (Add/Sub/Mul/Div),
@@ -45,7 +45,7 @@ const pvArgs = " fzero fone panicked fadd fsub fmul fdiv fsquare finv fofU64 fex
 
 var pvReserved = map[string]bool{"fzero": true, "fone": true, "panicked": true, "fadd": true, "fsub": true, "fmul": true, "fdiv": true, "fsquare": true, "finv": true,
 	"fofU64": true, "fexp": true, "fisZero": true, "batchInvert": true, "generator": true, "rev64": true, "tz": true, "F": true, "fuel_": true, "ret_": true,
-	"u64": true, "shr64": true, "idxD": true, "setAt": true, "len": true}
+	"toU64": true, "shrU64": true, "idxD": true, "setAt": true, "len": true}
 
 type pvField struct{ name, kind string }
 
@@ -92,7 +92,7 @@ func (s *pvScope) list() []pvField {
 
 func pvLeanTy(k string) string {
 	switch k {
-	case "int", "u64", "code":
+	case "int", "toU64", "code":
 		return "Int"
 	case "elem":
 		return "F"
@@ -228,7 +228,7 @@ func (f *pvFn) expr(e ast.Expr, sc *pvScope) (string, string) {
 		if k != "list" {
 			f.p.die(e, "index of a value of kind %q", k)
 		}
-		i := f.intArg(v.Index, sc, "int", "u64")
+		i := f.intArg(v.Index, sc, "int", "toU64")
 		return "idxD fzero " + l + " " + pvAtom(i), "elem"
 	case *ast.BinaryExpr:
 		switch v.Op {
@@ -247,7 +247,7 @@ func (f *pvFn) expr(e ast.Expr, sc *pvScope) (string, string) {
 			a, ka := f.expr(v.X, sc)
 			b, kb := f.expr(v.Y, sc)
 			okKinds := ka == kb || (ka == "int" && kb == "code") || (ka == "code" && kb == "int")
-			if !okKinds || (ka != "int" && ka != "code" && ka != "u64" && ka != "err") {
+			if !okKinds || (ka != "int" && ka != "code" && ka != "toU64" && ka != "err") {
 				f.p.die(e, "comparison of %q with %q", ka, kb)
 			}
 			if ka == "err" && v.Op != token.EQL && v.Op != token.NEQ {
@@ -264,7 +264,7 @@ func (f *pvFn) expr(e ast.Expr, sc *pvScope) (string, string) {
 		case token.REM:
 			return "(Int.tmod " + pvAtom(f.intArg(v.X, sc, "int")) + " " + pvAtom(f.intArg(v.Y, sc, "int")) + ")", "int"
 		case token.SHR:
-			return "(shr64 " + pvAtom(f.intArg(v.X, sc, "u64")) + " " + pvAtom(f.intArg(v.Y, sc, "u64")) + ")", "u64"
+			return "(shrU64 " + pvAtom(f.intArg(v.X, sc, "toU64")) + " " + pvAtom(f.intArg(v.Y, sc, "toU64")) + ")", "toU64"
 		}
 		f.p.die(e, "binary operator %s", v.Op)
 	case *ast.CallExpr:
@@ -302,7 +302,7 @@ func (f *pvFn) call(c *ast.CallExpr, sc *pvScope) (string, string) {
 	switch fun {
 	case "uint64", "uint":
 		if len(c.Args) == 1 {
-			return "(u64 " + pvAtom(f.intArg(c.Args[0], sc, "int", "u64")) + ")", "u64"
+			return "(toU64 " + pvAtom(f.intArg(c.Args[0], sc, "int", "toU64")) + ")", "toU64"
 		}
 	case "int64":
 		if len(c.Args) == 1 {
@@ -310,11 +310,11 @@ func (f *pvFn) call(c *ast.CallExpr, sc *pvScope) (string, string) {
 		}
 	case "bits.TrailingZeros":
 		if len(c.Args) == 1 {
-			return "(tz " + pvAtom(f.intArg(c.Args[0], sc, "u64")) + ")", "int"
+			return "(tz " + pvAtom(f.intArg(c.Args[0], sc, "toU64")) + ")", "int"
 		}
 	case "bits.Reverse64":
 		if len(c.Args) == 1 {
-			return "(rev64 " + pvAtom(f.intArg(c.Args[0], sc, "u64")) + ")", "u64"
+			return "(rev64 " + pvAtom(f.intArg(c.Args[0], sc, "toU64")) + ")", "toU64"
 		}
 	case "len":
 		if len(c.Args) == 1 {
@@ -427,7 +427,7 @@ func (f *pvFn) methodValue(c *ast.CallExpr, cur string, sc *pvScope) string {
 	case m == "SetOne" && len(c.Args) == 0:
 		return "fone"
 	case m == "SetUint64" && len(c.Args) == 1:
-		return "fofU64 " + pvAtom(f.intArg(c.Args[0], sc, "u64"))
+		return "fofU64 " + pvAtom(f.intArg(c.Args[0], sc, "toU64"))
 	case m == "Exp" && len(c.Args) == 2:
 		if _, isAddr := c.Args[0].(*ast.UnaryExpr); isAddr {
 			f.p.die(c, "Exp takes its base by value")
@@ -463,7 +463,7 @@ func (f *pvFn) chainStmt(e ast.Expr, sc *pvScope, ind string) (string, string) {
 		if !ok || sc.lookup(id.Name) != "list" || !f.made[id.Name] {
 			f.p.die(e, "element write on a slice that is not a local created by make")
 		}
-		i := pvAtom(f.intArg(r.Index, sc, "int", "u64"))
+		i := pvAtom(f.intArg(r.Index, sc, "int", "toU64"))
 		for _, c := range calls {
 			fmt.Fprintf(&b, "%slet %s := setAt %s %s (%s)\n", ind, id.Name, id.Name, i, f.methodValue(c, "idxD fzero "+id.Name+" "+i, sc))
 		}
@@ -731,7 +731,7 @@ func (f *pvFn) assign(a *ast.AssignStmt, sc *pvScope, ind string, rest func(*pvS
 		c, ok := a.Rhs[0].(*ast.CallExpr)
 		if ok && exprText(c.Fun) == "fft.Generator" && len(c.Args) == 1 {
 			x, e := a.Lhs[0].(*ast.Ident).Name, a.Lhs[1].(*ast.Ident).Name
-			arg := pvAtom(f.intArg(c.Args[0], sc, "u64"))
+			arg := pvAtom(f.intArg(c.Args[0], sc, "toU64"))
 			sc2 := f.declare(a, f.declare(a, sc, x, "elem"), e, "err")
 			return fmt.Sprintf("%slet (%s, %s) := generator %s\n", ind, x, e, arg) + rest(sc2)
 		}
@@ -764,7 +764,7 @@ func (f *pvFn) assign(a *ast.AssignStmt, sc *pvScope, ind string, rest func(*pvS
 		sc2 := f.declare(a, sc, id.Name, k)
 		return fmt.Sprintf("%slet %s : %s := %s\n", ind, id.Name, pvLeanTy(k), t) + rest(sc2)
 	}
-	if have := sc.lookup(id.Name); have != k || (k != "elem" && k != "int" && k != "u64") {
+	if have := sc.lookup(id.Name); have != k || (k != "elem" && k != "int" && k != "toU64") {
 		f.p.die(a, "assignment of kind %q to %s of kind %q", k, id.Name, have)
 	}
 	return fmt.Sprintf("%slet %s := %s\n", ind, id.Name, t) + rest(sc)
